@@ -4,6 +4,7 @@ PROP = dict(
          "fns": {"abi_unpack_method": ("abi_unpack_method_run", "abi_out_eqb", "(bytes * list ty * bytes) * abi_out"),
                  "abi_unpack_empty": ("abi_unpack_empty_run", "Z.eqb", "(bytes * bytes) * Z"),
                  "vm_receive": ("vm_receive_run", "vm_receive_eqb", "(bytes * Z * bytes * bool * list (bytes * Z * bytes)) * (Z * list (bytes * Z * bytes))"),
+                 "method_tables": ("method_tables_run", "Bool.eqb", "list (list (bytes * bytes)) * bool"),
                  "vm_receive_removed": ("vm_receive_removed_run", "vm_receive_eqb", "(bytes * Z * bytes) * (Z * list (bytes * Z * bytes))"),
                  "emb_plasma": ("emb_plasma_run", "emb_plasma_eqb", "emb_in pstore * emb_out pstore"),
                  "emb_stake": ("emb_stake_run", "emb_stake_eqb", "emb_in sstore * emb_out sstore"),
@@ -12,10 +13,11 @@ PROP = dict(
                  "emb_common": ("emb_common_run", "emb_common_eqb", "emb_in cstore * emb_out cstore")}},
     suites=[{"bin": "c09", "name": "abi", "n": {"quick": 1500, "thorough": 30000}},
             {"bin": "c09", "name": "calls", "n": {"quick": 44, "thorough": 1500}, "timeout": 3000},
-            {"bin": "c09", "name": "removed", "n": {"quick": 10, "thorough": 100}}],
+            {"bin": "c09", "name": "removed", "n": {"quick": 10, "thorough": 100}},
+            {"bin": "c09", "name": "wedge", "n": {"quick": 1, "thorough": 10}}],
     rule="abi: every method of every embedded ABI, canonical encodings of boundary values mutated by truncation, bad selector, hostile offset/length words (0, len+-k, 2^31, 2^32, 2^63+-k, 2^64-k, 2^255, 2^256-k), non-canonical padding, aliased offsets, dropped/inserted words, trailing and random bytes, through the real UnpackMethod/UnpackEmptyMethod under recover; "
          "calls: histories on a real node under each spork regime (origin, accelerator, bridge+liquidity, htlc), every (contract, method) pair of the ABIs, arguments from pools (known entry ids, owners, issued tokens, names, preimages) and boundary classes, amounts {natural, 0, 1, 2^255-1, whole balance,...} x tokens {ZNN, QSR, issued, foreign, zero}, 1/6 of the calls with mutated ABI encodings; every accepted send is received through vm.Supervisor.GenerateAutoReceive under the harness's recover; "
-         "removed: a valid call whose method is retired (verif hook) between send and receive; a case is distinct by (function, input)",
+         "removed: a valid call whose method is retired (verif hook) between send and receive, and inclusion of the four real method tables; wedge: the bridge set up through accepted administrator calls with an owned, non-burnable token pair, then a user WrapToken (reproducer of the known finding); a case is distinct by (function, input)",
     explanation="Theorems: the ABI decoder model never panics on any byte string for any well-formed type (all types in use are well formed); generateEmbeddedReceive with a table of non-panicking, frame-respecting methods always yields Applied or Refunded(exactly amount+token to the sender, storage and balances unchanged) and advances the inbox cursor by exactly 1, for a single call and by induction for any queue; the retired-method path refunds (and panicked before fix ea6a52e). "
                 "Modelled: vm/abi unpack.go, argument.go (UnpackValues), abi.go (UnpackMethod, UnpackEmptyMethod); vm/vm.go generateEmbeddedReceive, rollbackEmbedded, applySend, vm_context Save/Reset/Done/AddBalance/SubBalance; concrete methods (ValidateSendBlock + ReceiveBlock): common DepositQsr/WithdrawQsr/CollectReward/Donate, plasma Fuse/CancelFuse, stake Stake/Cancel, htlc Create/Reclaim/Unlock/DenyProxyUnlock/AllowProxyUnlock, token Mint/Burn/UpdateToken. "
                 "Explored by the harness only (oracle of the property on the real code, thin vm tie): token IssueToken, all pillar, sentinel, swap, spork, accelerator, liquidity and bridge methods, stake/pillar/sentinel/liquidity/accelerator Update.",
